@@ -30,7 +30,7 @@ from .tlc import require_actions, run_tlc
 INVARIANTS = ["TypeOK", "Broadcast", "PerIndex", "IndexDependence", "Linear", "Asymptote"]
 TIMES = [-50.0, -1.0, -0.25, 0.0, 0.125, 0.25, 0.5, 1.0, 2.0, 5.0, 20.0, 100.0]
 # with the periodic-excitation term the signal is defined within a period around the pulse (the library refuses non-finite values far outside)
-TIMES_BS = [-1.0, -0.25, 0.0, 0.125, 0.25, 0.5, 1.0, 2.0, 5.0]
+TIMES_BS = [-1.0, -0.5, -0.25, 0.0, 0.125, 0.25, 0.5, 1.0, 2.0, 3.0, 5.0, 7.0]      # as many points as TIMES (degrees of freedom of the result replays, D11)
 
 
 def times_of(bs: bool):
